@@ -56,6 +56,39 @@ def gen_segment_history(rng, n, strict=False, reject=False):
     return {'root': 'segment', 'segment': seg, 'version': '2.5', 'strict': strict, 'ops': ops}
 
 
+FIELD_COMPS = {'PID_5': ('XPN', [2, 3, 5, 7]), 'PID_3': ('CX', [1, 2, 3, 5]), 'PID_11': ('XAD', [3, 4, 5, 6])}
+
+
+def gen_field_history(rng, n, strict=False, reject=False):
+    """the same vocabulary one level down: a Field of a complex datatype as root, its (leaf) components as children"""
+    fld = rng.choice(sorted(FIELD_COMPS))
+    dt, idxs = FIELD_COMPS[fld]
+    ops = []
+    for _ in range(n):
+        name = '%s_%d' % (dt, rng.choice(idxs))
+        val = rng.choice(['A', 'B', 'C', 'H', 'K'])
+        k = rng.randrange(10)
+        if k < 4:
+            ops.append(['set', name.lower(), val])
+        elif k == 4:
+            ops.append(['setpresent', name, val])
+        elif k == 5:
+            ops.append(['del', name.lower()])
+        elif k == 6:
+            ops.append(['remove', rng.randrange(0, 4)])
+        elif k == 7:
+            ops.append(rng.choice([['setelem_attached', name, val], ['setparent_none', rng.randrange(0, 4)], ['copy', name.lower(), val]]))
+        elif k == 8:
+            ops.append(['seti', name.lower(), 0, val])
+        else:
+            ops.append(['deli', name.lower(), 0])
+        if reject and rng.random() < .35:
+            ops.append(rng.choice([['add_otherlevel', name, val], ['add_otherversion', name, val], ['replace_otherlevel', name.lower(), val],
+                                   ['del', '%s_%d' % (dt.lower(), 19)], ['set', 'foo_1', 'X'], ['setparent_otherlevel', name, val], ['deli', name.lower(), 5],
+                                   ['children_assign_refused', name, val]]))
+    return {'root': 'field', 'field': fld, 'version': '2.5', 'strict': strict, 'ops': ops}
+
+
 def gen_message_history(rng, n, strict=False, reject=False):
     ops = []
     if rng.random() < .5:
@@ -126,6 +159,16 @@ class Spec:
         for i in range(1, max(by) + 1):
             out.append('~'.join(by.get(i, [])))
         return '|'.join(out)
+
+    def enc_field(self):
+        """a field of a complex datatype: components by position, `^`-separated, trailing empty positions trimmed (a component
+        holds one value here, so there is at most one per position)"""
+        by = {}
+        for n, t in self.items:
+            by.setdefault(int(n.split('_')[1]), []).append(t)
+        if not by:
+            return ''
+        return '^'.join('~'.join(by.get(i, [])) for i in range(1, max(by) + 1))
 
     def enc_message(self, order=None):
         """TOLERANT: insertion order.  STRICT (`order` = the structure's child names): the per-name lists of repetitions
@@ -209,9 +252,15 @@ def run_history(h):
     other_lvl = VL.TOLERANT if h['strict'] else VL.STRICT
     v = h['version']
     spec = Spec()
+    Child = Field
     if h['root'] == 'segment':
         root = Segment(h['segment'], version=v, validation_level=lvl)
         other = Segment(h['segment'], version=v, validation_level=lvl)
+    elif h['root'] == 'field':
+        # a field of a complex datatype: its components are the children
+        root = Field(h['field'], version=v, validation_level=lvl)
+        other = Field(h['field'], version=v, validation_level=lvl)
+        Child = Component
     else:
         root = Message(h['structure'], version=v, validation_level=lvl)
         root.msh.msh_7 = '20200101'
@@ -238,7 +287,7 @@ def run_history(h):
                 setattr(root, op[1], op[2])
                 spec.set(op[1].upper(), op[2])
             elif kind == 'setlong':
-                f = Field(op[1], version=v, validation_level=lvl)
+                f = Child(op[1], version=v, validation_level=lvl)
                 ln = f.long_name
                 if ln is None or ln.lower() in Segment.cls_attrs:
                     setattr(root, op[1].lower(), op[2])
@@ -249,20 +298,30 @@ def run_history(h):
                 getattr(root, op[1])[op[2]] = op[3]
                 spec.set(op[1].upper(), op[3], op[2])
             elif kind == 'add':
-                f = Field(op[1], version=v, validation_level=lvl)
+                f = Child(op[1], version=v, validation_level=lvl)
                 f.value = op[2]
                 extra.append(f)
                 root.add(f)
                 spec.add(op[1], op[2])
+            elif kind == 'setpresent':
+                f = Child(op[1], version=v, validation_level=lvl)
+                f.value = op[2]
+                extra.append(f)
+                if spec.reps(op[1]):
+                    setattr(root, op[1].lower(), f)
+                    spec.set(op[1], op[2])
+                else:
+                    root.add(f)
+                    spec.add(op[1], op[2])
             elif kind == 'addnew':
-                f = root.add_field(op[1])
+                f = root.add_field(op[1]) if h['root'] == 'segment' else root.add_component(op[1])
                 spec.add(op[1], '')
                 substep()
                 f.value = op[2]
                 spec.items[-1] = (op[1], op[2])
             elif kind == 'reattach':
                 # add to `root` a field that is already attached to another segment
-                f = Field(op[1], version=v, validation_level=lvl)
+                f = Child(op[1], version=v, validation_level=lvl)
                 f.value = op[2]
                 other.add(f)
                 extra.append(('other', other))
@@ -270,7 +329,7 @@ def run_history(h):
                 spec.add(op[1], op[2])
             elif kind == 'setelem_attached':
                 # assign, by name, a field object that is currently a child of another segment
-                f = Field(op[1], version=v, validation_level=lvl)
+                f = Child(op[1], version=v, validation_level=lvl)
                 f.value = op[2]
                 other.add(f)
                 extra.append(('other', other))
@@ -278,7 +337,7 @@ def run_history(h):
                 spec.set(op[1], op[2])
             elif kind == 'setparent':
                 # the public `parent` setter on a field that is a child of another segment (finding D26)
-                f = Field(op[1], version=v, validation_level=lvl)
+                f = Child(op[1], version=v, validation_level=lvl)
                 f.value = op[2]
                 other.add(f)
                 extra.append(('other', other))
@@ -290,7 +349,7 @@ def run_history(h):
                 c.parent = None
                 spec.remove_at(op[1])
             elif kind == 'setparent_otherlevel':
-                f = Field(op[1], version=v, validation_level=other_lvl)
+                f = Child(op[1], version=v, validation_level=other_lvl)
                 f.value = op[2]
                 extra.append(f)
                 f.parent = root
@@ -316,7 +375,7 @@ def run_history(h):
                     p[op[2]] = p[op[3]]
                     spec.items = [(c.name, c.to_er7(EC)) for c in root.children]
             elif kind == 'add_twice':
-                f = Field(op[1], version=v, validation_level=lvl)
+                f = Child(op[1], version=v, validation_level=lvl)
                 f.value = op[2]
                 root.add(f)
                 spec.add(op[1], op[2])
@@ -352,26 +411,26 @@ def run_history(h):
             elif kind == 'set_wrongname':
                 setattr(root, op[1], op[2])
             elif kind == 'add_otherlevel':
-                f = Field(op[1], version=v, validation_level=other_lvl)
+                f = Child(op[1], version=v, validation_level=other_lvl)
                 extra.append(f)
                 root.add(f)
             elif kind == 'add_otherversion':
-                f = Field(op[1], version='2.4', validation_level=lvl)
+                f = Child(op[1], version='2.4', validation_level=lvl)
                 extra.append(f)
                 root.add(f)
             elif kind == 'set_elem_wrongname':
                 setattr(root, op[1], Field('PV1_2', version=v, validation_level=lvl))
             elif kind == 'replace_otherlevel':
-                f = Field(op[1].upper(), version=v, validation_level=other_lvl)
+                f = Child(op[1].upper(), version=v, validation_level=other_lvl)
                 extra.append(f)
                 setattr(root, op[1], f)
             elif kind == 'add_overflow':
-                f = Field(op[1], version=v, validation_level=lvl)
+                f = Child(op[1], version=v, validation_level=lvl)
                 f.value = op[2]
                 root.add(f)
                 spec.add(op[1], op[2])
                 substep()
-                f2 = Field(op[1], version=v, validation_level=lvl)
+                f2 = Child(op[1], version=v, validation_level=lvl)
                 f2.value = op[2]
                 extra.append(f2)
                 root.add(f2)
@@ -381,9 +440,9 @@ def run_history(h):
                 spec.set(op[1].upper(), 'x' * 2000)
             elif kind == 'children_assign_refused':
                 # root.children = [good, bad]: refused at the second element (finding D32: the first one was left pointing at root)
-                good = Field(op[1], version=v, validation_level=lvl)
+                good = Child(op[1], version=v, validation_level=lvl)
                 good.value = op[2]
-                bad = Field(op[1], version=v, validation_level=other_lvl)
+                bad = Child(op[1], version=v, validation_level=other_lvl)
                 extra.extend([good, bad])
                 root.children = [good, bad]
             elif kind == 'set_basedt_refused':
@@ -470,7 +529,7 @@ def run_history(h):
             if x.parent is not None and not any(x is c for c in x.parent.children):
                 half.append('half-attached:%s' % x.name)
         rec = {'op': op, 'exc': exc, 'enc': after[0], 'children': after[1], 'inv': inv + half,
-               'spec': spec.enc_segment(h['segment']) if h['root'] == 'segment' else spec.enc_message(list(root.ordered_children) if h['strict'] else None),
+               'spec': spec.enc_segment(h['segment']) if h['root'] == 'segment' else spec.enc_field() if h['root'] == 'field' else spec.enc_message(list(root.ordered_children) if h['strict'] else None),
                'atomic': (after == before and not half) if exc is not None else None,
                'read_noop': (after == before) if kind == 'read' else None}
         recs.append(rec)
